@@ -493,6 +493,16 @@ func prefixLookup(m map[string]string, name string) (string, bool) {
 	return val, best != ""
 }
 
+// callKey: the whole call, normalised (`w.parse(prevRaw,logID)`): lets an ErrCalls key tell two calls of one function apart
+// by their first arguments; a key that is just the function name is a prefix of it too.
+func callKey(e ast.Expr) string {
+	c, ok := e.(*ast.CallExpr)
+	if !ok {
+		return ""
+	}
+	return norm(src(c))
+}
+
 func callName(e ast.Expr) string {
 	c, ok := e.(*ast.CallExpr)
 	if !ok {
@@ -1000,16 +1010,29 @@ func (t *tr) indexLoopAsRange(f *ast.ForStmt) (*ast.RangeStmt, bool) {
 	return &ast.RangeStmt{Key: iv, Value: ast.NewIdent(canon), Tok: token.DEFINE, X: X, Body: f.Body}, true
 }
 
-// appendEffectVar: the Lean variable an `x = append(x, v)` statement sets through Spec.AppendEffect, or "".
-func (t *tr) appendEffectVar(x *ast.AssignStmt) string {
-	if len(x.Rhs) != 1 || len(t.sp.AppendEffect) == 0 {
-		return ""
+// stmtEffect: the "leanVar := term" binding Spec.AppendEffect attaches to this assignment — either `x = append(x, v)` keyed
+// by the (canonical) appended identifier v, or any assignment keyed by "stmt:" + its normalised source (`stmt:sth.LogID=idHash`).
+func (t *tr) stmtEffect(x *ast.AssignStmt) (string, bool) {
+	if len(t.sp.AppendEffect) == 0 {
+		return "", false
+	}
+	if eff, ok := t.sp.AppendEffect["stmt:"+norm(src(x))]; ok {
+		return eff, true
+	}
+	if len(x.Rhs) != 1 {
+		return "", false
 	}
 	c, ok := x.Rhs[0].(*ast.CallExpr)
 	if !ok || src(c.Fun) != "append" || len(c.Args) < 2 {
-		return ""
+		return "", false
 	}
 	eff, ok := t.sp.AppendEffect[norm(src(t.subst(c.Args[len(c.Args)-1])))]
+	return eff, ok
+}
+
+// appendEffectVar: the Lean variable an assignment sets through Spec.AppendEffect, or "".
+func (t *tr) appendEffectVar(x *ast.AssignStmt) string {
+	eff, ok := t.stmtEffect(x)
 	if !ok {
 		return ""
 	}
@@ -1079,9 +1102,14 @@ func (t *tr) initCondByCall(x *ast.IfStmt) (string, bool) {
 	return "", false
 }
 
+func (t *tr) knownErrCall(e ast.Expr) bool {
+	_, ok := prefixLookup(t.sp.ErrCalls, callKey(t.subst(e)))
+	return ok
+}
+
 // errCallName: the Lean Bool of an ErrCalls call (without its effect), or "".
 func (t *tr) errCallName(e ast.Expr) string {
-	name, ok := prefixLookup(t.sp.ErrCalls, callName(e))
+	name, ok := prefixLookup(t.sp.ErrCalls, callKey(e))
 	if !ok {
 		return ""
 	}
@@ -1217,15 +1245,11 @@ func (t *tr) block(b []ast.Stmt, tail string, ind string) string {
 		}
 		return "let " + v + " := (" + t.ops() + op + t.expr(x.X) + " (1 : Int))\n" + ind + t.block(rest, tail, ind)
 	case *ast.AssignStmt:
-		if len(x.Rhs) == 1 && len(t.sp.AppendEffect) > 0 {
-			if c, ok := x.Rhs[0].(*ast.CallExpr); ok && src(c.Fun) == "append" && len(c.Args) >= 2 {
-				if eff, ok := t.sp.AppendEffect[norm(src(t.subst(c.Args[len(c.Args)-1])))]; ok {
-					return "let " + eff + "\n" + ind + t.block(rest, tail, ind)
-				}
-			}
+		if eff, ok := t.stmtEffect(x); ok {
+			return "let " + eff + "\n" + ind + t.block(rest, tail, ind)
 		}
 		if len(x.Rhs) == 1 && src(x.Lhs[len(x.Lhs)-1]) == "err" {
-			if _, known := prefixLookup(t.sp.ErrCalls, callName(t.subst(x.Rhs[0]))); !known {
+			if _, known := prefixLookup(t.sp.ErrCalls, callKey(t.subst(x.Rhs[0]))); !known {
 				if b, ok := t.inlineErr(x.Rhs[0]); ok {
 					t.pendingErr = b
 					if t.opaque == nil {
@@ -1255,7 +1279,7 @@ func (t *tr) block(b []ast.Stmt, tail string, ind string) string {
 			}
 		}
 		if len(x.Rhs) == 1 {
-			if name, ok := prefixLookup(t.sp.ErrCalls, callName(t.subst(x.Rhs[0]))); ok {
+			if name, ok := prefixLookup(t.sp.ErrCalls, callKey(t.subst(x.Rhs[0]))); ok {
 				if src(x.Lhs[len(x.Lhs)-1]) != "err" {
 					failf(s, "ErrCalls call %s does not assign err last", src(s))
 				}
@@ -1413,6 +1437,11 @@ func (t *tr) block(b []ast.Stmt, tail string, ind string) string {
 				c = r
 			} else if as1, ok1 := x.Init.(*ast.AssignStmt); ok1 && len(as1.Rhs) == 1 && src(x.Cond) == "err != nil" && src(as1.Lhs[len(as1.Lhs)-1]) == "err" && t.inlinedErr(as1.Rhs[0]) != "" {
 				c = t.inlinedErr(as1.Rhs[0])
+			} else if as2, ok2 := x.Init.(*ast.AssignStmt); ok2 && len(as2.Rhs) == 1 && t.knownErrCall(as2.Rhs[0]) {
+				// an ErrCalls call with an effect: run it as a statement (effect first), then `if err != nil`
+				y := *x
+				y.Init = nil
+				return t.block(append([]ast.Stmt{x.Init, &y}, rest...), tail, ind)
 			} else if as, ok := x.Init.(*ast.AssignStmt); ok && as.Tok == token.DEFINE && len(as.Lhs) == 1 && len(as.Rhs) == 1 {
 				// `if v := e; cond`: bind v, then the ordinary translation
 				pre := "let " + t.lvalue(as.Lhs[0]) + " := " + t.expr(as.Rhs[0]) + "\n" + ind
